@@ -354,6 +354,13 @@ def subscript(I, obj, idx):
         mro_ext = [k for k in I.repo.mro(ctx.resolve_ty(obj.ty).cls) if isinstance(k, ExternalRef) and k.dotted not in ("object", "typing.Generic", "abc.ABC")]
         if mem is None and not mro_ext:
             raise PyRaise(I.make_exception(ExternalRef("TypeError"), ["object is not subscriptable"]))
+    if isinstance(obj, SV) and isinstance(obj.ty, TStr) and _const_index(idx) is not None and _const_index(idx) >= 0:
+        # s[k] for a constant k >= 0: the k-th character, IndexError if the string is shorter
+        k = _const_index(idx)
+        st = Z.Val.s(obj.t)
+        if not ctx.branch(z3.Length(st) > k, "str-index-in-range"):
+            raise PyRaise(I.make_exception(ExternalRef("IndexError"), ["string index out of range"]))
+        return SV(Z.mk_str(z3.SubString(st, k, 1)), TStr())
     if isinstance(obj, (VTuple, VList)):
         k = _const_index(idx)
         if k is None:
